@@ -2,10 +2,10 @@ package exec
 
 import (
 	"encoding/json"
-	"strings"
 	"fmt"
 	"go/types"
 	"sort"
+	"strings"
 
 	"golang.org/x/tools/go/ssa"
 
@@ -134,7 +134,6 @@ func hJSONUnmarshal(ex *Exec, c *frame, fn *ssa.Function, a []Value) Value {
 	ex.store(ptr, val, c)
 	return Iface{}
 }
-
 
 // fromNative converts a natively decoded JSON value into engine values.
 func (ex *Exec) fromNative(x interface{}) Value {
